@@ -2,6 +2,7 @@
 package props
 
 import (
+	"strings"
 	"crypto/rsa"
 	"crypto/sha256"
 	"crypto/x509"
@@ -30,6 +31,31 @@ var (
 )
 
 // RSAKeys returns the committed RSA-2048 fixtures.
+// OddRSAKeys returns the fixtures whose modulus is 256 octets long but has 2041, 2045 or 2047 bits: keys that
+// rsa.GenerateKey(2048) never produces, that are perfectly good token keys (256-byte signatures), and on which every
+// "bits/8" that rounds down goes wrong.
+func OddRSAKeys() []*rsa.PrivateKey {
+	var out []*rsa.PrivateKey
+	for _, bits := range []int{2041, 2045, 2047} {
+		b, err := os.ReadFile(filepath.Join(core.VerifDir(), "fixtures", fmt.Sprintf("rsa-odd-%d.pem", bits)))
+		if err != nil {
+			panic(err)
+		}
+		blk, _ := pem.Decode(b)
+		k, err := x509.ParsePKCS8PrivateKey(blk.Bytes)
+		if err != nil {
+			panic(err)
+		}
+		rk := k.(*rsa.PrivateKey)
+		if rk.N.BitLen() != bits {
+			panic("odd RSA fixture has an unexpected modulus size")
+		}
+		rk.Precompute()
+		out = append(out, rk)
+	}
+	return out
+}
+
 func RSAKeys() []*rsa.PrivateKey {
 	rsaOnce.Do(func() {
 		files, _ := filepath.Glob(filepath.Join(core.VerifDir(), "fixtures", "rsa2048-*.pem"))
@@ -254,6 +280,24 @@ var _ = fmt.Sprintf
 var SpecialStrings = []string{
 	"SigEd25519 no Ed25519 collisions", "SigEd25519 no Ed25519 collisions\x00\x00", "SigEd448", "ECDSA Key Blind", "ClientBlind", "IssuerBlind", "IssuerOriginAlias",
 	"TokenRequest", "TokenResponse", "key", "nonce", "HPKE-v1", "OPRFV1-", "HashToGroup-OPRFV1-\x01-P384-SHA384", "Finalize", "DeriveKeyPair", "Seed-", "PrivateToken", "\x00", "\x00\x03ClientBlind",
+}
+
+// HostileNames are origin names (or any other peer-chosen text) that mean something to code which formats, logs,
+// truncates or compares text: printf directives, invalid and truncated UTF-8, runs of continuation bytes, control
+// characters, very repetitive content. As names they are ordinary bytes. None ends in a zero byte.
+func HostileNames() []string {
+	out := []string{
+		"%s%s%s%s%s%s%n", "%d", "%v%+v%#v%T", "%!(EXTRA string=x)", "%[2]*d", "%*d", "%.99999d", "%999999[1]d", strings.Repeat("%999999[1]d", 100), strings.Repeat("%0999999d", 40),
+		strings.Repeat("%x", 300), "100%", "%", "%%", "%\x00d", "{{.}}", "${jndi:ldap://x/a}", "$(reboot)", "`id`", "'; DROP TABLE origins;--",
+		strings.Repeat("\xbf", 65), strings.Repeat("\xbf", 64), strings.Repeat("\x80", 200), strings.Repeat("\xff", 100), "\xc0\xaf", "\xed\xa0\x80", strings.Repeat("\xf0\x9f", 60),
+		strings.Repeat("a", 63) + "\xe2\x82\xac", strings.Repeat("a", 62) + "\xf0\x9f\x98\x80", strings.Repeat("a", 64) + "\xbf\xbf\xbf", "\xe2\x82", "\xef\xbb\xbforigin.example",
+		"origin.example\n", "origin.example\r\nX-Injected: 1", "\x1b[2J", "a\x00b", "\x00a", " origin.example", "origin.example ", "ORIGIN.EXAMPLE", "origin.example.", "origin\u3002example",
+		"xn--origin-example", "origin.example:443", "https://origin.example/", "origin.example,other.example", ",", ",origin.example", "origin.example,",
+	}
+	for b := 1; b < 256; b++ {
+		out = append(out, strings.Repeat(string([]byte{byte(b)}), 65+b%7))
+	}
+	return out
 }
 
 // freezeSelfAfter stops this whole worker process (SIGSTOP) after the given delay and has it continued (SIGCONT, sent
